@@ -39,11 +39,150 @@ theorem drop_zeros (e d : Nat) (x : Bytes) (h : d ≤ e) : (zeros e ++ x).drop d
 theorem zeros_add (a b : Nat) : zeros (a + b) = zeros a ++ zeros b := by
   simp [zeros]
 
-theorem updatePaddings_spec (M : Meta) (hwf : M.wf) :
+/-- `update_paddings` on a padding vector that describes the fields `rest` and then goes on with `X` (entries for
+    what libtins reads as fields of the last present word): every field of `rest` ends up at its aligned offset, and
+    whatever the run over `X` does to the bytes `T` behind them (`hX`) is done behind them -/
+theorem updatePaddings_cont (M : Meta) (hwf : M.wf) (T : Bytes) (X : List Nat) (idx : Nat)
+    (hX : ∀ (k i : Nat) (offset : Int) (pre : Bytes) (fuel : Nat), i + k = idx → (pre.length : Int) = offset + i + k →
+      fuel > k + X.length →
+      ∃ T', updatePaddings fuel (List.replicate k 1 ++ X) i offset (pre ++ T) = .ok (pre ++ T')) :
+    ∀ (rest : List (Nat × Bytes)) (off k i : Nat) (offset : Int) (pre : Bytes) (fuel : Nat),
+      Sized M rest → i + k + (descL M rest off).length = idx → (pre.length : Int) = offset + i + k →
+      fuel > k + (descL M rest off).length + X.length →
+      ∃ T', updatePaddings fuel (List.replicate k 1 ++ (descL M rest off ++ X)) i offset (pre ++ (enc M rest off ++ T))
+        = .ok (pre ++ (enc M rest (pre.length + 4) ++ T')) := by
+  intro rest
+  induction rest with
+  | nil =>
+    intro off k i offset pre fuel _ hidx hpre hf
+    simp only [descL, enc, List.nil_append]
+    exact hX k i offset pre fuel (by simpa [descL] using hidx) hpre (by simpa [descL] using hf)
+  | cons x r ih =>
+    obtain ⟨b, v⟩ := x
+    intro off k i offset pre fuel hs hidx hpre hf
+    have hb := hs (b, v) (List.mem_cons_self ..)
+    have hr : Sized M r := fun f hf' => hs f (List.mem_cons_of_mem _ hf')
+    obtain ⟨hbmax, hvlen⟩ := hb
+    simp only at hbmax hvlen
+    obtain ⟨hsz, hal⟩ := hwf.2 b hbmax
+    have hvpos : 0 < v.length := by omega
+    by_cases ha1 : M.align b = 1
+    · -- alignment 1: the whole field is a run of ones, consumed by the skip loop
+      have hd : List.replicate k 1 ++ (descL M ((b, v) :: r) off ++ X)
+          = List.replicate (k + v.length) 1 ++ (descL M r (off + v.length) ++ X) := by
+        simp only [descL, ha1, padTo_one, List.replicate_zero, List.nil_append, Nat.add_zero]
+        have : ([1] : List Nat) = List.replicate 1 1 := rfl
+        rw [this, ← hvlen]
+        simp only [← List.append_assoc, List.replicate_append_replicate]
+        congr 3
+        omega
+      have he : pre ++ (enc M ((b, v) :: r) off ++ T) = (pre ++ v) ++ (enc M r (off + v.length) ++ T) := by
+        simp [enc, ha1, padTo_one, zeros]
+      rw [hd, he]
+      have hlen : (descL M ((b, v) :: r) off).length = v.length + (descL M r (off + v.length)).length := by
+        simp only [descL, ha1, padTo_one, List.length_append, List.length_replicate, List.length_cons,
+          List.length_nil, Nat.add_zero]
+        omega
+      obtain ⟨T', hT'⟩ := ih (off + v.length) (k + v.length) i offset (pre ++ v) fuel hr (by omega)
+        (by simp only [List.length_append]; omega) (by omega)
+      refine ⟨T', ?_⟩
+      rw [hT']
+      simp [enc, ha1, padTo_one, zeros, Nat.add_assoc, Nat.add_comm, Nat.add_left_comm]
+    · -- alignment 2/4/8: one iteration of the outer loop
+      have ha0 : M.align b ≠ 0 := by omega
+      have hapos : 0 < M.align b := by omega
+      cases fuel with
+      | zero => omega
+      | succ f =>
+        let e := padTo (M.align b) off
+        let off' := off + padTo (M.align b) off + v.length
+        have hdesc : descL M ((b, v) :: r) off ++ X
+            = List.replicate e 0 ++ M.align b :: (List.replicate (M.size b - 1) 1 ++ (descL M r off' ++ X)) := by
+          simp [descL, e, off']
+        have s1 : skipEq 1 (List.replicate k 1 ++ (descL M ((b, v) :: r) off ++ X)) i
+            = (List.replicate e 0 ++ M.align b :: (List.replicate (M.size b - 1) 1 ++ (descL M r off' ++ X)), i + k) := by
+          rw [skipEq_replicate_append, hdesc, skipEq_one_zeros_cons _ _ _ _ ha1]
+        have s2 : skipEq 0 (List.replicate e 0 ++ M.align b :: (List.replicate (M.size b - 1) 1 ++ (descL M r off' ++ X))) (i + k)
+            = (M.align b :: (List.replicate (M.size b - 1) 1 ++ (descL M r off' ++ X)), i + k + e) := by
+          rw [skipEq_replicate_append, skipEq_cons_ne _ _ _ _ ha0]
+        have hpos : (offset + ((i + k : Nat) : Int)).toNat = pre.length := by omega
+        have hnonneg : ¬ (offset + ((i + k : Nat) : Int) < 0) := by omega
+        have hneeded : calculatePadding (M.align b) (pre.length + 4) % 256 = padTo (M.align b) (pre.length + 4) := by
+          rw [calculatePadding_eq _ _ hapos]
+          have := padTo_lt (M.align b) (pre.length + 4) hapos
+          omega
+        have hbuf : pre ++ (enc M ((b, v) :: r) off ++ T) = pre ++ (zeros e ++ (v ++ (enc M r off' ++ T))) := by
+          simp [enc, e, off']
+        have hflen : (descL M ((b, v) :: r) off).length = e + 1 + (M.size b - 1) + (descL M r off').length := by
+          simp [descL, e, off']; omega
+        have htarget : ∀ T', pre ++ (enc M ((b, v) :: r) (pre.length + 4) ++ T')
+            = (pre ++ zeros (padTo (M.align b) (pre.length + 4)) ++ v) ++
+              (enc M r ((pre ++ zeros (padTo (M.align b) (pre.length + 4)) ++ v).length + 4) ++ T') := by
+          intro T'
+          simp only [enc, List.append_assoc, List.length_append, zeros_length]
+          congr 5
+          omega
+        unfold updatePaddings
+        simp only [s1, s2, hpos, hneeded, hnonneg, false_or]
+        have hex : i + k + e - (i + k) = e := by omega
+        simp only [hex]
+        generalize hn : padTo (M.align b) (pre.length + 4) = needed at htarget ⊢
+        have hlenbuf : (pre ++ (enc M ((b, v) :: r) off ++ T)).length
+            = pre.length + (e + (v.length + ((enc M r off').length + T.length))) := by
+          rw [hbuf]; simp [zeros_length]
+        by_cases hgt : e > needed
+        · simp only [hgt, if_true]
+          have hnf : ¬ (pre.length + (e - needed) > (pre ++ (enc M ((b, v) :: r) off ++ T)).length) := by
+            rw [hlenbuf]; omega
+          simp only [hnf, if_false]
+          have hb' : (pre ++ (enc M ((b, v) :: r) off ++ T)).take pre.length ++
+              (pre ++ (enc M ((b, v) :: r) off ++ T)).drop (pre.length + (e - needed))
+              = (pre ++ zeros needed ++ v) ++ (enc M r off' ++ T) := by
+            rw [hbuf, take_pre, drop_pre_add, drop_zeros _ _ _ (by omega)]
+            have : e - (e - needed) = needed := by omega
+            simp [this]
+          rw [hb']
+          obtain ⟨T', hT'⟩ := ih off' (M.size b - 1) (i + k + e + 1) (offset - ((e - needed : Nat) : Int))
+            (pre ++ zeros needed ++ v) f hr (by omega)
+            (by simp only [List.length_append, zeros_length]; omega) (by omega)
+          exact ⟨T', by rw [hT', htarget]⟩
+        · simp only [hgt, if_false]
+          by_cases hlt : e < needed
+          · simp only [hlt, if_true]
+            have hnf : ¬ (pre.length > (pre ++ (enc M ((b, v) :: r) off ++ T)).length) := by
+              rw [hlenbuf]; omega
+            simp only [hnf, if_false]
+            have hb' : (pre ++ (enc M ((b, v) :: r) off ++ T)).take pre.length ++ zeros (needed - e) ++
+                (pre ++ (enc M ((b, v) :: r) off ++ T)).drop pre.length
+                = (pre ++ zeros needed ++ v) ++ (enc M r off' ++ T) := by
+              have h0 := drop_pre_add pre (zeros e ++ (v ++ (enc M r off' ++ T))) 0
+              simp only [Nat.add_zero, List.drop_zero] at h0
+              rw [hbuf, take_pre, h0]
+              have : needed = (needed - e) + e := by omega
+              rw [this, zeros_add]
+              simp
+            rw [hb']
+            obtain ⟨T', hT'⟩ := ih off' (M.size b - 1) (i + k + e + 1) (offset + ((needed - e : Nat) : Int))
+              (pre ++ zeros needed ++ v) f hr (by omega)
+              (by simp only [List.length_append, zeros_length]; omega) (by omega)
+            exact ⟨T', by rw [hT', htarget]⟩
+          · simp only [hlt, if_false]
+            have heq : e = needed := by omega
+            have hb' : pre ++ (enc M ((b, v) :: r) off ++ T) = (pre ++ zeros needed ++ v) ++ (enc M r off' ++ T) := by
+              rw [hbuf, heq]; simp
+            rw [hb']
+            obtain ⟨T', hT'⟩ := ih off' (M.size b - 1) (i + k + e + 1) offset
+              (pre ++ zeros needed ++ v) f hr (by omega)
+              (by simp only [List.length_append, zeros_length]; omega) (by omega)
+            exact ⟨T', by rw [hT', htarget]⟩
+
+/-- `update_paddings` on the fields `rest` (followed by foreign bytes `T`, which it never touches): every field ends
+    up at its aligned offset -/
+theorem updatePaddings_spec (M : Meta) (hwf : M.wf) (T : Bytes) :
     ∀ (rest : List (Nat × Bytes)) (off k i : Nat) (offset : Int) (pre : Bytes) (fuel : Nat),
       Sized M rest → (pre.length : Int) = offset + i + k → fuel > k + (descL M rest off).length →
-      updatePaddings fuel (List.replicate k 1 ++ descL M rest off) i offset (pre ++ enc M rest off)
-        = .ok (pre ++ enc M rest (pre.length + 4)) := by
+      updatePaddings fuel (List.replicate k 1 ++ descL M rest off) i offset (pre ++ (enc M rest off ++ T))
+        = .ok (pre ++ (enc M rest (pre.length + 4) ++ T)) := by
   intro rest
   induction rest with
   | nil =>
@@ -73,7 +212,7 @@ theorem updatePaddings_spec (M : Meta) (hwf : M.wf) :
         simp only [← List.append_assoc, List.replicate_append_replicate]
         congr 2
         omega
-      have he : pre ++ enc M ((b, v) :: r) off = (pre ++ v) ++ enc M r (off + v.length) := by
+      have he : pre ++ (enc M ((b, v) :: r) off ++ T) = (pre ++ v) ++ (enc M r (off + v.length) ++ T) := by
         simp [enc, ha1, padTo_one, zeros]
       rw [hd, he]
       have hlen : (descL M ((b, v) :: r) off).length = v.length + (descL M r (off + v.length)).length := by
@@ -106,31 +245,32 @@ theorem updatePaddings_spec (M : Meta) (hwf : M.wf) :
           rw [calculatePadding_eq _ _ hapos]
           have := padTo_lt (M.align b) (pre.length + 4) hapos
           omega
-        have hbuf : pre ++ enc M ((b, v) :: r) off = pre ++ (zeros e ++ (v ++ enc M r off')) := by
+        have hbuf : pre ++ (enc M ((b, v) :: r) off ++ T) = pre ++ (zeros e ++ (v ++ (enc M r off' ++ T))) := by
           simp [enc, e, off']
         have hflen : (descL M ((b, v) :: r) off).length = e + 1 + (M.size b - 1) + (descL M r off').length := by
           rw [hdesc]; simp; omega
-        have htarget : pre ++ enc M ((b, v) :: r) (pre.length + 4)
+        have htarget : pre ++ (enc M ((b, v) :: r) (pre.length + 4) ++ T)
             = (pre ++ zeros (padTo (M.align b) (pre.length + 4)) ++ v) ++
-              enc M r ((pre ++ zeros (padTo (M.align b) (pre.length + 4)) ++ v).length + 4) := by
+              (enc M r ((pre ++ zeros (padTo (M.align b) (pre.length + 4)) ++ v).length + 4) ++ T) := by
           simp only [enc, List.append_assoc, List.length_append, zeros_length]
-          congr 4
+          congr 5
           omega
         unfold updatePaddings
         simp only [s1, s2, hpos, hneeded, hnonneg, false_or]
         have hex : i + k + e - (i + k) = e := by omega
         simp only [hex]
         generalize hn : padTo (M.align b) (pre.length + 4) = needed at htarget ⊢
-        have hlenbuf : (pre ++ enc M ((b, v) :: r) off).length = pre.length + (e + (v.length + (enc M r off').length)) := by
+        have hlenbuf : (pre ++ (enc M ((b, v) :: r) off ++ T)).length
+            = pre.length + (e + (v.length + ((enc M r off').length + T.length))) := by
           rw [hbuf]; simp [zeros_length]
         by_cases hgt : e > needed
         · simp only [hgt, if_true]
-          have hnf : ¬ (pre.length + (e - needed) > (pre ++ enc M ((b, v) :: r) off).length) := by
+          have hnf : ¬ (pre.length + (e - needed) > (pre ++ (enc M ((b, v) :: r) off ++ T)).length) := by
             rw [hlenbuf]; omega
           simp only [hnf, if_false]
-          have hb' : (pre ++ enc M ((b, v) :: r) off).take pre.length ++
-              (pre ++ enc M ((b, v) :: r) off).drop (pre.length + (e - needed))
-              = (pre ++ zeros needed ++ v) ++ enc M r off' := by
+          have hb' : (pre ++ (enc M ((b, v) :: r) off ++ T)).take pre.length ++
+              (pre ++ (enc M ((b, v) :: r) off ++ T)).drop (pre.length + (e - needed))
+              = (pre ++ zeros needed ++ v) ++ (enc M r off' ++ T) := by
             rw [hbuf, take_pre, drop_pre_add, drop_zeros _ _ _ (by omega)]
             have : e - (e - needed) = needed := by omega
             simp [this]
@@ -141,13 +281,13 @@ theorem updatePaddings_spec (M : Meta) (hwf : M.wf) :
         · simp only [hgt, if_false]
           by_cases hlt : e < needed
           · simp only [hlt, if_true]
-            have hnf : ¬ (pre.length > (pre ++ enc M ((b, v) :: r) off).length) := by
+            have hnf : ¬ (pre.length > (pre ++ (enc M ((b, v) :: r) off ++ T)).length) := by
               rw [hlenbuf]; omega
             simp only [hnf, if_false]
-            have hb' : (pre ++ enc M ((b, v) :: r) off).take pre.length ++ zeros (needed - e) ++
-                (pre ++ enc M ((b, v) :: r) off).drop pre.length
-                = (pre ++ zeros needed ++ v) ++ enc M r off' := by
-              have h0 := drop_pre_add pre (zeros e ++ (v ++ enc M r off')) 0
+            have hb' : (pre ++ (enc M ((b, v) :: r) off ++ T)).take pre.length ++ zeros (needed - e) ++
+                (pre ++ (enc M ((b, v) :: r) off ++ T)).drop pre.length
+                = (pre ++ zeros needed ++ v) ++ (enc M r off' ++ T) := by
+              have h0 := drop_pre_add pre (zeros e ++ (v ++ (enc M r off' ++ T))) 0
               simp only [Nat.add_zero, List.drop_zero] at h0
               rw [hbuf, take_pre, h0]
               have : needed = (needed - e) + e := by omega
@@ -159,7 +299,7 @@ theorem updatePaddings_spec (M : Meta) (hwf : M.wf) :
             · omega
           · simp only [hlt, if_false]
             have heq : e = needed := by omega
-            have hb' : pre ++ enc M ((b, v) :: r) off = (pre ++ zeros needed ++ v) ++ enc M r off' := by
+            have hb' : pre ++ (enc M ((b, v) :: r) off ++ T) = (pre ++ zeros needed ++ v) ++ (enc M r off' ++ T) := by
               rw [hbuf, heq]; simp
             rw [hb', htarget]
             apply ih off' (M.size b - 1) (i + k + e + 1) _ _ f hr
